@@ -371,3 +371,7 @@ mod tests {
         assert_eq!(result.port, 568);
     }
 }
+
+#[cfg(all(test, pendulum_project_ntpd_rs_verif))]
+#[path = "/verif/harness/ntpd/probe_keyexchange.rs"]
+pub(crate) mod verif_probe;
